@@ -25,7 +25,7 @@ claimed["C13"] = dict(
    text="Static io-discipline analysis over the whole (de)serialization closure decides, for every reader chunking, truncation point and writer failure "
         "offset at once, that no stream is consumed with a short-read-unsafe Read, that every I/O or nested error leaves the function as a non-nil error "
         "(callbacks included; only io.EOF at a record boundary may become success), that every operation's byte count reaches the returned total, that no fallible call is deferred (its error could never reach the caller), that "
-        "each restore function succeeds only behind a post-read consistency test, and that the restored object carries the constructor's configuration. Round-trip equality of the restored forest is not decided.",
+        "each restore function succeeds only behind a post-read consistency test, that the restored object carries the constructor's configuration, and that a record buffer reused across records has every byte it assigns assigned on every path to the write. Round-trip equality of the restored forest is not decided.",
    ref="DESIGN.md 5/C13, engines E6+E2",
    technique="static error-propagation (dominance/region analysis on go/ssa), who-may-call rule for raw Read, typed-AST count accumulation, must-pass-through gate (custom analyzer)")
 
